@@ -971,29 +971,53 @@ example : glyphOrder (heldRun fh "fg" [.delGlyph "fg" "b", .newGlyph "fg" "q", .
     ["b", "c", "q"] := by decide
 
 /-- Deferred evaluation makes the order DIFFER from the immediate one without contradicting the
-property (each outcome is what the property states for the state its callbacks saw):
-* delete the only `a`, create `a` again — immediately the name leaves and is appended at the end;
-  under a hold `GlyphDeleted(a)` is delivered when `a` exists again, so the name keeps its place;
-* rename `a` to `x`, create `a` again — immediately `x` takes `a`'s place and `a` is appended; under a
-  hold the old name "must stay" at delivery time, so `a` keeps its place and `x` is appended;
-* delete `a`, rename `b` to `a` (order `b, c, a`) — immediately `a` leaves and then takes `b`'s place;
-  under a hold `a` never leaves, keeps the place it has, and `b` is removed. -/
-theorem deferred_differs_from_immediate :
-    (glyphOrder (heldRun fh "fg" [.delGlyph "fg" "a", .newGlyph "fg" "a"]) = ["a", "b", "c"] ∧
-     glyphOrder (run fh [.delGlyph "fg" "a", .newGlyph "fg" "a"]) = ["b", "c", "a"]) ∧
-    (glyphOrder (heldRun fh "fg" [.rename "fg" "a" "x", .newGlyph "fg" "a"]) = ["a", "b", "c", "x"] ∧
-     glyphOrder (run fh [.rename "fg" "a" "x", .newGlyph "fg" "a"]) = ["x", "b", "c", "a"]) ∧
-    (glyphOrder (heldRun { fh with lib := some ["b", "c", "a"] } "fg" [.delGlyph "fg" "a", .rename "fg" "b" "a"]) =
-       ["c", "a"] ∧
-     glyphOrder (run { fh with lib := some ["b", "c", "a"] } [.delGlyph "fg" "a", .rename "fg" "b" "a"]) =
-       ["a", "c"]) := by decide
+property.  The first way, for every well-formed font, calm layer `L` and glyph `a` of it: delete `a`
+and create it again inside one hold.  `GlyphDeleted(a)` is delivered when a layer has `a` again, so a
+listed name KEEPS ITS PLACE (an unlisted one is appended) — whereas without the hold, when no other
+layer has `a`, the name leaves at the deletion (`deleted_leaves_iff_gone`) and is appended at the end
+at the re-creation (`created_in_order`).  Both outcomes are what the property states for the state
+the callbacks saw. -/
+theorem held_recreate_keeps_place (f : Font) (hw : WF f) (L : String) (l : Layer)
+    (hget : AL.get? f.layers L = some l) (hc : l.calm) (a : Name) (ha : a ∈ l.glyphs) :
+    glyphOrder (heldRun f L [.delGlyph L a, .newGlyph L a]) =
+      (if a ∈ glyphOrder f then glyphOrder f else glyphOrder f ++ [a]) := by
+  have hb : ∀ op ∈ [Op.delGlyph L a, .newGlyph L a], op.onLayer L = true := by
+    intro op ho; simp at ho; rcases ho with rfl | rfl <;> simp [Op.onLayer]
+  obtain ⟨_, h2, h3, _⟩ := held_block_order f hw L l hget hc _ hb
+  have hrun : blockRun (l.glyphs, []) [.delGlyph L a, .newGlyph L a] =
+      (addName (removeName l.glyphs a) a, [.deleted a, .added a]) := by
+    simp [blockRun, blockStep, ha]
+  have hwH : WF (heldRun f L [.delGlyph L a, .newGlyph L a]) := wf_run hw _
+  have hex : anyLayerHas (heldRun f L [.delGlyph L a, .newGlyph L a]) a = true := by
+    rw [anyLayerHas_iff hwH.names, exists_congr h2, exists_setLayer, hrun]
+    exact Or.inr (mem_addName.mpr (Or.inr rfl))
+  have hq : coalesce [] [Note.deleted a, Note.added a] = [.deleted a, .added a] := by
+    simp [coalesce, enqueue]
+  rw [h3, hrun]
+  simp only [hq, specDeliverAll, List.foldl_cons, List.foldl_nil, specDeliver, deliverArgs, hex, if_true,
+    specUpdate, appendIfAbsent]
+
+-- the three ways, side by side (held / immediate)
+example : glyphOrder (heldRun fh "fg" [.delGlyph "fg" "a", .newGlyph "fg" "a"]) = ["a", "b", "c"] ∧
+    glyphOrder (run fh [.delGlyph "fg" "a", .newGlyph "fg" "a"]) = ["b", "c", "a"] := by decide
+-- rename `a` to `x`, create `a` again: immediately `x` takes `a`'s place and `a` is appended; under a hold the
+-- old name "must stay" at delivery time, so `a` keeps its place and `x` is appended
+example : glyphOrder (heldRun fh "fg" [.rename "fg" "a" "x", .newGlyph "fg" "a"]) = ["a", "b", "c", "x"] ∧
+    glyphOrder (run fh [.rename "fg" "a" "x", .newGlyph "fg" "a"]) = ["x", "b", "c", "a"] := by decide
+-- delete `a`, rename `b` to `a` (order b, c, a): immediately `a` leaves and then takes `b`'s place; under a hold
+-- `a` never leaves, keeps the place it has, and `b` is removed
+example :
+    glyphOrder (heldRun { fh with lib := some ["b", "c", "a"] } "fg" [.delGlyph "fg" "a", .rename "fg" "b" "a"]) =
+      ["c", "a"] ∧
+    glyphOrder (run { fh with lib := some ["b", "c", "a"] } [.delGlyph "fg" "a", .rename "fg" "b" "a"]) =
+      ["a", "c"] := by decide
 
 /-- … and these are the only two ways in which it can differ.  For a well-formed font, a calm layer and
 any block of glyph operations on it: if (1) the block posts no notification twice — nothing is
 coalesced — and (2) every callback of the run WITHOUT the hold got, about the name it asks about
 ("does any layer still have it"), the answer that the state at the release gives, then the order after
 hold – block – release IS the order after the block alone, and so are the layers' names.  (Dropping
-(1): `held_gone_leaves_violated`; dropping (2): `deferred_differs_from_immediate`.) -/
+(1): `held_gone_leaves_violated`; dropping (2): `held_recreate_keeps_place` and the examples after it.) -/
 theorem held_equals_immediate (f : Font) (hw : WF f) (L : String) (l : Layer)
     (hget : AL.get? f.layers L = some l) (hc : l.calm) (block : List Op)
     (hb : ∀ op ∈ block, op.onLayer L = true)
